@@ -48,6 +48,10 @@ pub struct Case {
     /// router mode: the last node additionally claims the default route 0.0.0.0/0
     #[serde(default)]
     pub default_route: bool,
+    /// bit i: node i enables the unencrypted transport besides AES128 (pairs of such nodes negotiate plain,
+    /// every other pair a cipher - a mesh with both kinds of connection)
+    #[serde(default)]
+    pub plain_mask: u8,
 }
 
 fn mac(node: u8, host: u8) -> [u8; 6] {
@@ -79,6 +83,9 @@ fn run_generic<P: Protocol>(ctx: &Ctx, c: &Case) -> Vec<Viol> {
             }
             MeshMode::Switch => cfg.mode = Mode::Switch,
             MeshMode::Hub => cfg.mode = Mode::Hub,
+        }
+        if c.plain_mask & (1 << i) != 0 {
+            cfg.crypto.algorithms = vec!["plain".to_string(), "aes128".to_string()];
         }
         sim.add_node(&cfg, false);
     }
@@ -175,7 +182,8 @@ fn run_generic<P: Protocol>(ctx: &Ctx, c: &Case) -> Vec<Viol> {
                 let before = sim.wire_log.len();
                 sim.put_payload(at, bytes.clone());
                 let caused: Vec<(usize, Vec<u8>)> = sim.wire_log[before..].iter().map(|d| (sim.index.get(&d.dst).copied().unwrap_or(99), d.data.clone())).collect();
-                if caused.iter().any(|(_, d)| sim.wire_log[before..].iter().filter(|x| x.data == *d).count() > 1) {
+                // (sealed datagrams are all different; over the unencrypted transport a flooded frame is the same bytes for every peer)
+                if c.plain_mask == 0 && caused.iter().any(|(_, d)| sim.wire_log[before..].iter().filter(|x| x.data == *d).count() > 1) {
                     out.push(Viol::new("same-datagram-sent-twice", format!("step {}: identical datagram emitted twice", si), cj()));
                 }
                 let got_dsts: Vec<usize> = caused.iter().map(|(d, _)| *d).collect();
@@ -330,7 +338,8 @@ pub fn run(ctx: &Ctx) {
                 ops.push(alphabet[(i % na) as usize]);
                 i /= na;
             }
-            let c = Case { mode, nodes: 3, ops, default_route: mode == MeshMode::Router && i_orig % 2 == 1 };
+            // every third sequence runs on a mesh in which nodes 0 and 1 talk unencrypted and node 2 does not
+            let c = Case { mode, nodes: 3, ops, default_route: mode == MeshMode::Router && i_orig % 2 == 1, plain_mask: if i2 % 3 == 2 { 0b011 } else { 0 } };
             let v = run_case(ctx, &c);
             ctx.report(v);
         });
@@ -340,9 +349,9 @@ pub fn run(ctx: &Ctx) {
     ctx.proptest(
         "pt-forward",
         n,
-        || (prop_oneof![Just(MeshMode::Router), Just(MeshMode::Switch), Just(MeshMode::Hub)], 2u8..=5, proptest::collection::vec(op_strategy(), 1..100), any::<bool>()),
-        |(mode, nodes, ops, dr)| {
-            let c = Case { mode: *mode, nodes: *nodes, ops: ops.clone(), default_route: *dr };
+        || (prop_oneof![Just(MeshMode::Router), Just(MeshMode::Switch), Just(MeshMode::Hub)], 2u8..=5, proptest::collection::vec(op_strategy(), 1..100), any::<bool>(), prop_oneof![2 => Just(0u8), 1 => Just(0xffu8), 2 => any::<u8>()]),
+        |(mode, nodes, ops, dr, plain_mask)| {
+            let c = Case { mode: *mode, nodes: *nodes, ops: ops.clone(), default_route: *dr, plain_mask: *plain_mask };
             let v = run_case(ctx, &c);
             if ops.len() < 6 {
                 ctx.sample("sequence", || serde_json::to_value(&c).unwrap());
@@ -350,7 +359,7 @@ pub fn run(ctx: &Ctx) {
             v
         },
     );
-    ctx.subspace("proptest: sequences up to 100 ops on 2-5 nodes in each mode", n as u64, false);
+    ctx.subspace("proptest: sequences up to 100 ops on 2-5 nodes in each mode, per-node choice of allowing the unencrypted transport", n as u64, false);
 
     // coverage-guided search over the same histories (libFuzzer target hist_c10: bytes -> operations -> this oracle);
     // the committed corpus is replayed in-process in every tier, the campaign runs in the thorough tier
